@@ -2,4 +2,4 @@
 # cq.sh <file.v> <line>: show the proof state right after <line> of the file
 f=$1; n=$2
 head -n $n $f > /verif/.build/dbg.v; echo "Show. " >> /verif/.build/dbg.v
-cd /verif/coq && coqc -Q theories CC -Q proofs CC -Q props CC -w -notation-overridden,-deprecated /verif/.build/dbg.v 2>&1 | grep -v "^Closed\|^File.*dbg.v\|Error: There are pending proofs\|characters" | tail -${3:-60}
+cd ${CQDIR:-/verif/coq} && coqc -Q theories CC -Q proofs CC -Q props CC -w -notation-overridden,-deprecated /verif/.build/dbg.v 2>&1 | grep -v "^Closed\|^File.*dbg.v\|Error: There are pending proofs\|characters" | tail -${3:-60}
